@@ -1,6 +1,7 @@
 import HmfVerif.Real.Tactics
 import HmfVerif.Gen.ExprFlow
 import HmfVerif.Proofs.ExprLemmas
+import HmfVerif.Spec.Wiring
 /-!
 # C02 — dn/dm is assembled exactly from its ingredients, independent of the mass grid
 Statements about the bodies of the `MassFunction` quantities as regenerated from `hmf.py`
@@ -86,5 +87,11 @@ theorem dndm_inputs :
 theorem sigma_nu_inputs :
     (Gen.Flow.MassFunction_sigma.freeVars ++ Gen.Flow.MassFunction_nu.freeVars ++ Gen.Flow.MassFunction__sigma_0.freeVars).all
       (fun x => x ∉ ["Mmin", "Mmax", "dlog10m", "idx"]) = true := by decide
+
+/-- the fitting-function component is built from the framework's own inputs: masses, ν, z, the mass definition, the object's
+    cosmology **with `cosmo_params` applied**, δc, n_eff and the user's `hmf_params` — nothing else -/
+theorem hmf_component_wiring : Gen.Flow.wiring.lookup "MassFunction.hmf" = some Spec.Wiring.hmf := by decide
+/-- the object's cosmology is the base model with exactly `cosmo_params` applied -/
+theorem cosmology_wiring : Gen.Flow.wiring.lookup "Cosmology.cosmo" = some Spec.Wiring.cosmo := by decide
 
 end Hmf.C02
